@@ -2,10 +2,22 @@
 PID = "C17"
 CARRIERS = ["tcp", "tcp-starttls", "tcp+tls", "unix", "ws", "wss", "stdio", "kcp", "dns"]
 RULE = ("per carrier: either end (application or target) writes 0 B .. 1 MiB (thorough: 4 MiB) and closes at once; the other end must read all of "
-        "it and then end-of-stream within a bound; distinct_nontrivial = distinct (carrier, length, closing side)")
+        "it and then end-of-stream within a bound; distinct_nontrivial = distinct (carrier, length, closing side). DNS close protocol (c17q): "
+        "operation scripts (data arriving, Reads with buffer sizes 0, 1, n-1, n, n+1 around what is buffered, a close of every kind at every "
+        "position, Reads after it) on a real client connection and a real server-side connection, compared token for token with the "
+        "extracted model; c17p: the real poll goroutine over scripted path fates and server-side events; distinct = distinct scripts")
 EXPLANATION = ("Props/C17.v: the copy loop reports EOF only after writing everything it read (flush before close) and every PipeData execution "
-               "terminates; delivery of FIN after data is the multiplexer's contract (hypothesis). Scenarios on every carrier.")
-TRUSTED = ["smux delivers FIN after the data written before it (hypothesis)", "a DNS-carrier Read parked without deadline is woken only by data (see DESIGN.md)"]
+               "terminates; delivery of FIN after data is the multiplexer's contract (hypothesis). Scenarios on every carrier. "
+               "DNS tunnel connection: Queue/Close.v models the in-queue with its parked reader, Read/Write/Close of both ends, closeConnection, "
+               "the close request, the expiry sweep, SendAndReceive and the poll goroutine; for every operation sequence and path script: what "
+               "Reads return is a prefix of what was appended, end-of-stream only on a closed end with everything delivered (also for a released "
+               "reader), a closed end never parks a Read, drain in ceil(buffered/n)+1 Reads, BADCONN or 7 equal errors close the polling "
+               "client; the shapes 'EOF as soon as closed' and 'errors wrapped' are refuted. The model's switches and constants are read from "
+               "the source (Gen/CloseShape.v) and the model is run against the real objects (c17q, c17p).")
+TRUSTED = ["smux delivers FIN after the data written before it (hypothesis)",
+           "DNS close model: one reader per end; operations are atomic (no interleaving below one Read / Append / Close / poll round); the expiry "
+           "sweep is driven by an accessor that repeats the sweep's three statements (the sweep goroutine cannot be called); read deadlines on "
+           "the in-queue are not modelled (see the report: a Read that ends by deadline leaves its notifier behind)"]
 RUN_TIMEOUT = 3000
 
 
@@ -55,10 +67,298 @@ def cases(tier, rng):
             for lag in ((0, 300, 1500) if thorough else (0, 300)):
                 line = "c17d %d %s %d" % (n, closer, lag)
                 cs.append({"line": line, "key": line, "model": False, "tags": {"carrier": "dns-ends", "n": n, "side": closer, "variant": "lag%d" % lag}})
+    cs += close_cases(tier, rng)
     return cs
 
 
+# ---- the DNS tunnel connection's close protocol on the real objects (ops c17q, c17p; model Queue/Close.v)
+
+def hx(b):
+    return "#" + bytes(b).hex()
+
+
+def gen_q(rng, maxops):
+    """One operation script: data arriving and Reads on both ends, closes of every kind somewhere, Reads and more afterwards."""
+    ops = []
+    st = {"c": {"buf": 0, "closed": False, "parked": False, "next": 1}, "s": {"buf": 0, "closed": False, "parked": False, "next": 101}}
+
+    def arrive(e):
+        n = rng.choice([0, 1, 1, 2, 3, 5, 8, 13, 40])
+        d = [(st[e]["next"] + i) % 256 for i in range(n)]
+        st[e]["next"] = (st[e]["next"] + n) % 256
+        ops.append("%sa %s" % (e, hx(d)))
+        if e == "c" or not st[e]["closed"]:
+            st[e]["buf"] += n
+            if st[e]["parked"] and st[e]["buf"] > 0:
+                st[e]["parked"] = False
+                st[e]["buf"] = 0 if rng.chance(1, 2) else st[e]["buf"]      # (rough: the generator only steers, it decides nothing)
+
+    def read(e):
+        b = st[e]["buf"]
+        n = rng.choice([0, 1, max(b - 1, 0), b, b + 1, b + 1, rng.range(1, 50)])
+        ops.append("%sr %d" % (e, n))
+        if b == 0 and not st[e]["closed"]:
+            st[e]["parked"] = True
+        st[e]["buf"] = max(0, b - n)
+
+    def close(e):
+        k = rng.choice(["cc"]) if e == "c" else rng.choice(["sc", "sq", "sx", "sc", "sq"])
+        ops.append(k)
+        st[e]["closed"] = True
+        st[e]["parked"] = False
+
+    n = rng.range(2, maxops)
+    for _ in range(n):
+        e = rng.choice(["c", "s"])
+        r = rng.below(100)
+        if r < 30:
+            arrive(e)
+        elif r < 72:
+            read(e)
+        elif r < 84:
+            close(e)
+        elif r < 88:
+            ops.append(rng.choice(["sf", "sx", "sc", "sq", "cc"]))
+        elif r < 94:
+            ops.append(e + "w")
+        else:
+            read(e)
+            read(e)
+    # what is left is drained with one buffer size
+    for e in ("c", "s"):
+        if rng.chance(2, 3):
+            k = rng.choice([1, 2, 3, 7, 64])
+            for _ in range(min(12, st[e]["buf"] // k + 2)):
+                ops.append("%sr %d" % (e, k))
+    return ops
+
+
+def q_case(ops, variant):
+    line = "c17q " + " ".join(ops)
+    return {"line": line, "key": line, "tags": {"carrier": "dns-close", "n": len(ops), "side": "both", "variant": variant}}
+
+
+def close_cases(tier, rng):
+    thorough = tier == "thorough"
+    cs = []
+    # a close of every kind at every position of a fixed script of arrivals and boundary Reads, on each end
+    for e, closes in (("s", ["sc", "sq", "sx"]), ("c", ["cc"])):
+        base = ["%sr 4" % e, "%sa #0102030405" % e, "%sr 0" % e, "%sr 1" % e, "%sa #0607" % e, "%sr 2" % e, "%sr 3" % e, "%sr 1" % e, "%sa #08" % e, "%sr 2" % e, "%sr 1" % e]
+        for k in closes:
+            for pos in range(len(base) + 1):
+                ops = base[:pos] + [k] + base[pos:] + ["%sr 3" % e, "%sr 3" % e, "%sw" % e]
+                cs.append(q_case(ops, "close-at-%d" % pos))
+    # buffered n octets at the close, then Reads of 1, n-1, n, n+1 octets
+    for e, k in (("s", "sc"), ("s", "sq"), ("s", "sx"), ("c", "cc")):
+        for n in (1, 2, 5, 40):
+            for r in sorted(set([1, max(1, n - 1), n, n + 1])):
+                data = [(7 * i + n) % 256 for i in range(n)]
+                ops = ["%sa %s" % (e, hx(data)), k] + ["%sr %d" % (e, r)] * (n // r + 3)
+                cs.append(q_case(ops, "drain"))
+    # a reader parked when the end closes, in every way; closing twice; closing after expiry; forgotten sessions
+    for ops in (["sr 8", "sc"], ["sr 8", "sq"], ["sr 8", "sx"], ["cr 8", "cc"], ["sr 0", "sc", "sr 0"], ["cr 0", "cc", "cr 0"],
+                ["sr 8", "sx", "sc", "sw", "sr 1"], ["sx", "sf", "sa #01", "sq", "sr 1"], ["sc", "sc", "sq", "sx", "sf", "sr 1", "sw"],
+                ["cc", "cc", "cr 1", "cw"], ["sa #", "sr 1", "sa #", "sc"], ["ca #", "cr 1", "ca #", "cc"],
+                ["cc", "ca #0102", "cr 1", "cr 1", "cr 1"], ["sq", "sa #0102", "sr 1"]):
+            cs.append(q_case(ops, "fixed"))
+    for _ in range(3000 if thorough else 260):
+        cs.append(q_case(gen_q(rng, 40 if thorough else 24), "random"))
+    # the poll goroutine over scripted fates
+    def p_case(cn, sn, fates, rn, variant):
+        line = "c17p %d %d %d %s %d" % (cn, sn, len(fates), " ".join(fates), rn)
+        return {"line": line, "key": line, "tags": {"carrier": "dns-poll", "n": len(fates), "side": "poller", "variant": variant}}
+    fixed = [
+        (4, 4, ["evclose"], 3),                                                  # the server application closes: BADCONN at the next round
+        (4, -1, ["ok #010203", "ok #0405", "evclose"], 2),                       # data first: the reader gets it, then end-of-stream
+        (-1, 3, ["ok #0102030405060708", "evexpire"], 3),                        # the session expires with data unread on the client
+        (2, 2, ["evexpire", "evforget"], 1),                                     # forgotten session: BADUSER until the give-up rule fires
+        (1, 1, ["ip"] * 7, 1),                                                   # seven equal errors through PacketResponse.Err
+        (1, 1, ["ip"] * 6 + ["ok #09"], 1),                                      # six are not enough
+        (1, -1, ["to"] * 10 + ["ip", "to", "to", "to", "to", "to", "ip", "net", "net", "net"], 1),   # different errors in turn: no give-up
+        (3, 3, ["to", "to", "ok #0a0b", "net", "evclose", "ip", "to"], 2),
+    ]
+    if thorough:
+        fixed += [(1, 1, ["to"] * 35, 1), (1, 1, ["to"] * 30 + ["ok #01"], 1), (1, 1, ["net"] * 12, 1)]
+    for cn, sn, fates, rn in fixed:
+        cs.append(p_case(cn, sn, fates, rn, "fixed"))
+    for _ in range(40 if thorough else 6):
+        fates = []
+        nxt = 1
+        for _ in range(rng.range(1, 9)):
+            r = rng.below(100)
+            if r < 40:
+                n = rng.choice([0, 1, 2, 5, 20])
+                fates.append("ok " + hx([(nxt + i) % 256 for i in range(n)]))
+                nxt += n
+            elif r < 55:
+                fates.append("to")
+            elif r < 65:
+                fates.append("net")
+            elif r < 75:
+                fates.append("ip")
+            elif r < 90:
+                fates.append(rng.choice(["evclose", "evexpire"]))
+            else:
+                fates.append("evforget")
+        line_fates = fates
+        cs.append(p_case(rng.choice([-1, 0, 1, 4]), rng.choice([-1, 0, 1, 4]), line_fates, rng.choice([1, 2, 7]), "random"))
+    return cs
+
+
+BAD_WORDS = ("panic", "died", "timeout", "harness-error", "setup", "connect", "stuck", "err", "aerr", "xresp", "accepted")
+
+
+def oracle_q(case, impl):
+    """The property on the implementation's observation alone: prefix, end-of-stream only after everything on a closed end, no Read parks
+    after a close, a parked reader is released by the close, drain without short Reads."""
+    ops = case["line"].split()[1:]
+    obs = impl.split()
+    out = []
+    if not obs or obs[0] in BAD_WORDS or any(w in BAD_WORDS for w in obs):
+        return [("crash;carrier=dns-close", "the script did not run to its end: " + impl[:200])]
+    ends = {"c": {"app": b"", "ret": b"", "closed": False, "parked": False}, "s": {"app": b"", "ret": b"", "closed": False, "parked": False}}
+    i = 0   # ops
+    j = 0   # obs
+
+    def got(e, data, what):
+        st = ends[e]
+        st["ret"] += data
+        if not st["app"].startswith(st["ret"]):
+            out.append(("not-a-prefix;end=" + e, "%s on end %s returned %s, which does not continue what was appended (%s) after what was returned before (%s)"
+                        % (what, e, data.hex(), st["app"].hex(), st["ret"][:-len(data) or None].hex())))
+
+    def eof(e, what):
+        st = ends[e]
+        if not st["closed"]:
+            out.append(("eof-before-close;end=" + e, "%s on end %s reported end-of-stream though nothing had closed that end" % (what, e)))
+        if st["ret"] != st["app"]:
+            out.append(("data-lost-on-close;end=" + e, "%s on end %s reported end-of-stream with %d of %d appended octets returned (%s)"
+                        % (what, e, len(st["ret"]), len(st["app"]), case["line"][:300])))
+
+    def woke(e):
+        nonlocal j
+        if j < len(obs) and obs[j] == "woke":
+            ends[e]["parked"] = False
+            if obs[j + 1] == "b":
+                got(e, bytes.fromhex(obs[j + 2][1:]), "the released Read")
+                j += 3
+            else:
+                eof(e, "the released Read")
+                j += 2
+            return True
+        return False
+
+    try:
+        while i < len(ops):
+            o = ops[i]
+            e = o[0]
+            st = ends[e]
+            if o in ("ca", "sa"):
+                data = bytes.fromhex(ops[i + 1][1:])
+                i += 2
+                ans = obs[j]
+                j += 1
+                if ans in ("a", "ok"):
+                    st["app"] += data
+                woke(e)
+            elif o in ("cr", "sr"):
+                n = int(ops[i + 1])
+                i += 2
+                r = obs[j]
+                if r == "b":
+                    data = bytes.fromhex(obs[j + 1][1:])
+                    j += 2
+                    rem = len(st["app"]) - len(st["ret"])
+                    got(e, data, "a Read")
+                    if st["closed"] and n > 0 and len(data) != min(n, rem):
+                        out.append(("short-read-after-close;end=" + e, "after the close a Read of %d octets returned %d with %d outstanding" % (n, len(data), rem)))
+                else:
+                    j += 1
+                    if r == "eof":
+                        eof(e, "a Read")
+                    elif r == "block":
+                        if st["closed"]:
+                            out.append(("read-parks-after-close;end=" + e, "a Read on end %s parked although the end had been closed: it will never return (%s)" % (e, case["line"][:300])))
+                        st["parked"] = True
+            elif o in ("cc", "sc", "sq", "sx"):
+                i += 1
+                ans = obs[j]
+                j += 1
+                was_parked = st["parked"]
+                if o != "sq" or ans == "ok":
+                    st["closed"] = True
+                released = woke(e)
+                if st["closed"] and was_parked and not released:
+                    out.append(("reader-not-released;end=" + e, "a Read was parked on end %s when %s closed it, and was not released (%s)" % (e, o, case["line"][:300])))
+            elif o == "sf":
+                i += 1
+                j += 1
+            elif o in ("cw", "sw"):
+                i += 1
+                if o == "cw" and st["closed"] and obs[j] != "refused":
+                    out.append(("write-after-close;end=c", "a Write on the closed client end was not refused"))
+                j += 1
+            else:
+                return [("crash;carrier=dns-close", "unknown operation " + o)]
+        if obs[j] != "end":
+            return [("crash;carrier=dns-close", "observation out of step: " + impl[:200])]
+        cpark, spark = obs[j + 4], obs[j + 5]
+        for e, pk in (("c", cpark), ("s", spark)):
+            if ends[e]["closed"] and pk != "0":
+                out.append(("reader-not-released;end=" + e, "at the end a reader is still parked on the closed end " + e))
+    except (IndexError, ValueError):
+        return [("crash;carrier=dns-close", "observation out of step: " + impl[:200])]
+    return out
+
+
+def oracle_p(case, impl):
+    p = case["line"].split()
+    obs = impl.split()
+    if not obs or obs[0] in BAD_WORDS or any(w in BAD_WORDS for w in obs):
+        return [("crash;carrier=dns-poll", "the scenario did not run to its end: " + impl[:200])]
+    out = []
+    try:
+        nf = int(p[3])
+        sent = b""
+        k = 4
+        for _ in range(nf):
+            if p[k] == "ok":
+                sent += bytes.fromhex(p[k + 1][1:])
+                k += 2
+            else:
+                k += 1
+        used = int(obs[obs.index("used") + 1])
+        e = obs.index("end")
+        cclosed, sclosed, slot, cpark, spark = obs[e + 1], obs[e + 2], obs[e + 3], obs[e + 4], obs[e + 5]
+        cw = obs[obs.index("cwoke") + 1:obs.index("swoke")]
+        sw = obs[obs.index("swoke") + 1:e]
+        cr = obs[obs.index("c", e) + 1:obs.index("s", e)]
+        sr = obs[obs.index("s", e) + 1:]
+        got = b""
+        for seq in (cw, cr):
+            for a, b in zip(seq, seq[1:]):
+                if a == "b":
+                    got += bytes.fromhex(b[1:])
+        if not sent.startswith(got):
+            out.append(("not-a-prefix;end=c", "the client read %s, not a prefix of what the server sent (%s)" % (got.hex(), sent.hex())))
+        if ("eof" in cw or "eof" in cr) and cclosed != "1":
+            out.append(("eof-before-close;end=c", "the client reader saw end-of-stream on an open connection"))
+        if cclosed == "1" and (cw == ["parked"] or cr[-1:] != ["eof"]):
+            out.append(("reader-not-released;end=c", "the client end is closed but its reader is parked / does not reach end-of-stream: " + impl[:200]))
+        if slot != "live" and (sw == ["parked"] or sr[-1:] != ["eof"]):
+            out.append(("reader-not-released;end=s", "the session is no longer live but the server-side reader is parked / does not reach end-of-stream: " + impl[:200]))
+        if slot != "live" and used >= nf and cclosed != "1":
+            out.append(("no-eof;carrier=dns-poll;closer=server", "the server end is closed and the path is clean, but the polling client never closed its end (%s)" % case["line"][:300]))
+    except (IndexError, ValueError):
+        return [("crash;carrier=dns-poll", "observation out of step: " + impl[:200])]
+    return out
+
+
 def oracle(case, impl):
+    if case["line"].startswith("c17q "):
+        return oracle_q(case, impl)
+    if case["line"].startswith("c17p "):
+        return oracle_p(case, impl)
     t = case["tags"]
     p = impl.split()
     if not p or p[0] in ("panic", "died", "timeout", "harness-error", "setup", "connect"):
@@ -79,7 +379,55 @@ def oracle(case, impl):
     return out
 
 
+def shrink(case):
+    """c17q scripts: one operation less (with its argument)."""
+    p = case["line"].split()
+    if p[0] != "c17q":
+        return
+    ops = []
+    i = 1
+    while i < len(p):
+        k = 2 if p[i] in ("ca", "sa", "cr", "sr") else 1
+        ops.append(p[i:i + k])
+        i += k
+    for j in range(len(ops)):
+        rest = ops[:j] + ops[j + 1:]
+        if rest:
+            yield q_case([" ".join(o) for o in rest], case["tags"].get("variant", "shrunk"))
+
+
+def proj_p(obs):
+    """c17p: the poll goroutine and the released reader are not synchronised with each other (a reader released by one chunk may run after
+    the next chunk has arrived too), so how the octets are cut over the Reads is not compared: the octets, in order, and how the Reads end."""
+    t = obs.split()
+    try:
+        e = t.index("end")
+        cw = t[t.index("cwoke") + 1:t.index("swoke")]
+        sw = t[t.index("swoke") + 1:e]
+        cr = t[t.index("c", e) + 1:t.index("s", e)]
+        sr = t[t.index("s", e) + 1:]
+    except ValueError:
+        return ("unparsed", obs)
+
+    def data(*seqs):
+        d = ""
+        for seq in seqs:
+            for a, b in zip(seq, seq[1:]):
+                if a == "b":
+                    d += b[1:]
+        return d
+
+    def last(seq):
+        ws = [w for w in seq if w in ("eof", "block", "busy")]
+        return ws[-1] if ws else "data"
+    return (t[:t.index("cwoke")], cw[0], sw[0], t[e:e + 6], data(cw, cr), last(cr), data(sw, sr), last(sr))
+
+
 def agree(case, impl, model):
+    if case["line"].startswith("c17q "):
+        return None if impl.strip() == model.strip() else "dns-close-protocol"
+    if case["line"].startswith("c17p "):
+        return None if proj_p(impl) == proj_p(model) else "dns-poll-close"
     i = impl.split()
     if "ms" in i:
         i = i[:i.index("ms")]
@@ -89,7 +437,14 @@ def agree(case, impl, model):
 META = {
     "level_text": "Partial: Coq theorems over the copy-loop and PipeData models: end-of-stream is reported only after everything read has been "
                   "written, the selector then closes the other side, and every execution terminates; FIN-after-data is the multiplexer's "
-                  "contract (hypothesis). Write-then-close scenarios in both directions run on every carrier.",
-    "level_note": "smux FIN ordering, kernel socket buffers and TLS close_notify are hypotheses exercised end to end.",
-    "technique": "Coq invariant proof over the copy-loop model + write-then-close scenarios on every carrier",
+                  "contract (hypothesis). Write-then-close scenarios in both directions run on every carrier. For the DNS tunnel connection "
+                  "the close / end-of-stream protocol is a model of its own (in-queue with parked reader, both ends' Read/Write/Close, close "
+                  "request, expiry, SendAndReceive, poll goroutine): proved for every operation sequence and path script - no loss or "
+                  "duplication by closing, end-of-stream only after everything on a closed end, no Read parks after a close, drain within "
+                  "ceil(buffered/n)+1 Reads, BADCONN and the give-up rule close a polling client - and run token for token against the real "
+                  "objects, including the real poll goroutine.",
+    "level_note": "smux FIN ordering, kernel socket buffers and TLS close_notify are hypotheses exercised end to end. DNS close model: one "
+                  "reader per end, operations atomic, read deadlines and the out-queue's parked writers not modelled.",
+    "technique": "Coq invariant proofs over the copy-loop model and over the DNS close-protocol model (extracted, run against the real "
+                 "objects) + write-then-close scenarios on every carrier",
 }
